@@ -19,6 +19,19 @@ theorem never_orphaned (profile : Nat) (hp : profile = 1 ∨ profile = 2 ∨ pro
       (∃ cr c, (run (World.init profile) ops).connReqs.get? cr = some c ∧ c.dfd = some d) :=
   (reachable_owned profile hp ops henv).1
 
+/-- ... and the QoS level recorded in a request fits the container that holds it: the release window (PUBREL sent, awaiting PUBCOMP)
+    holds QoS 2 exchanges only -- entries get there through `handlePUBREC` alone, which ignores a PUBREC bearing the identifier
+    of a QoS 1 message --, the publish window holds QoS 1 and QoS 2 messages, a held-back message has an identifier exactly when
+    its QoS is not 0. So a PUBCOMP can only complete a QoS 2 publish whose PUBREC has been received (C05, C09). -/
+theorem qos_fits_container (profile : Nat) (hp : profile = 1 ∨ profile = 2 ∨ profile = 3) (ops : List Op)
+    (henv : EnvRun (World.init profile) ops) :
+    ∀ e ∈ (run (World.init profile) ops).ents,
+      (e.box = .rel → ((run (World.init profile) ops).req e.rid).qos = 2) ∧
+      (e.box = .pub → ((run (World.init profile) ops).req e.rid).qos = 1 ∨ ((run (World.init profile) ops).req e.rid).qos = 2) ∧
+      (e.box = .queue → (((run (World.init profile) ops).req e.rid).msgId = 0 ↔ ((run (World.init profile) ops).req e.rid).qos = 0) ∧
+        ((run (World.init profile) ops).req e.rid).qos < 3) :=
+  fun e he => ((reachable_owned profile hp ops henv).2 e he).2
+
 /-- one operation never orphans a Deferred: an owned one stays owned or fires, fired ones stay fired, new ones are owned
     (or, like the one of a rejected call, fired at once) -/
 theorem step_keeps {w : World} (h : WInv w) (hq : Q0 w) (op : Op) (henv : Env w op) : Keeps w (step w op) ∧ Q0 (step w op) :=
